@@ -31,7 +31,7 @@ var zones = []string{"UTC", "America/Los_Angeles", "Asia/Tokyo", "Pacific/Kiriti
 func runWorker(ctx context.Context, cfg bConfig, deadline time.Time) (*bResult, error) {
 	arg, _ := json.Marshal(cfg)
 	cmd := exec.CommandContext(ctx, os.Args[0], "-c04b-worker", string(arg))
-	cmd.Env = append(os.Environ(), "TZ="+cfg.TZ, "GOMAXPROCS=2", "GOGC=400", "VERIF_WORKER_DEADLINE="+deadline.Format(time.RFC3339Nano))
+	cmd.Env = append(os.Environ(), "TZ="+cfg.TZ, "GOMAXPROCS=2", "GOGC=200", "VERIF_WORKER_DEADLINE="+deadline.Format(time.RFC3339Nano))
 	var out, errb bytes.Buffer
 	cmd.Stdout, cmd.Stderr = &out, &errb
 	if err := cmd.Run(); err != nil {
@@ -86,10 +86,12 @@ func main() {
 
 	// ---- part b workers start first (they run while part a runs in this process)
 	depth := 4
-	retries := []int{1}
+	retries := []int{1, 2}
 	if r.Thorough() {
 		depth = 5
-		retries = []int{1, 2}
+	}
+	if s := os.Getenv("VERIF_C04_DEPTH"); s != "" { // experiments only
+		fmt.Sscanf(s, "%d", &depth)
 	}
 	type job struct{ cfg bConfig }
 	var jobs []job
